@@ -513,15 +513,160 @@ Lemma extend_inv trans types abbrs future trans2 types2 abbrs2 ext ly :
 Proof.
   intros H Fo Hl. unfold extend_transitions in H.
   repeat peel_ext H.
-  all: try (inversion H; subst; clear H).
-  Show.
-Abort.
+  all: try match type of H with OK (Some _) = OK (Some _) => inversion H; subst; clear H end.
+  - (* no footer *)
+    exists []. rewrite app_nil_r. repeat split; auto. lia.
+  - (* standard time only *)
+    destruct (parse_ok _ _ E0) as (so & Eso & Hso & _).
+    rewrite Eso in E1. cbn [get_opt] in E1. inversion E1; subst a.
+    destruct (gtt_types _ _ _ _ _ _ _ _ E2 ltac:(lia)) as (_ & _ & L1 & F1 & A1).
+    exists []. rewrite app_nil_r. repeat split; auto.
+  - (* all-year DST *)
+    destruct (parse_ok _ _ E0) as (so & Eso & Hso & [Dn | (dof & Edo & Hdo & _)]);
+      [rewrite Dn in E7; discriminate|].
+    rewrite Eso in E1. cbn [get_opt] in E1. inversion E1; subst a.
+    rewrite Edo in E8. cbn [get_opt] in E8. inversion E8; subst a2.
+    destruct (gtt_types _ _ _ _ _ _ _ _ E2 ltac:(lia)) as (_ & _ & L1 & F1 & A1).
+    destruct (gtt_types _ _ _ _ _ _ _ _ E9 ltac:(lia)) as (_ & _ & L2 & F2 & A2).
+    exists []. rewrite app_nil_r. repeat split; auto. lia.
+  - (* rule-generated transitions *)
+    destruct (parse_ok _ _ E0) as (so & Eso & Hso & [Dn | (dof & Edo & Hdo & P1 & P2)]);
+      [rewrite Dn in E7; discriminate|].
+    rewrite Eso in E1. cbn [get_opt] in E1. inversion E1; subst a.
+    rewrite Edo in E8. cbn [get_opt] in E8. inversion E8; subst a2.
+    destruct (gtt_types _ _ _ _ _ _ _ _ E2 ltac:(lia)) as (I1 & _ & L1 & F1 & A1).
+    destruct (gtt_types _ _ _ _ _ _ _ _ E9 ltac:(lia)) as (I2 & _ & L2 & F2 & A2).
+    destruct (last_opt trans) as [last|] eqn:EL; [|discriminate E6].
+    inversion E6; subst a1. clear E6.
+    pose proof (Hl _ eq_refl) as HT.
+    destruct (nth_res_inv _ _ _ E15) as [In5 _].
+    assert (O5 : off_ok a5).
+    { specialize (F2 (F1 Fo)). rewrite Forall_forall in F2. apply F2. exact In5. }
+    assert (I64 : int64 (tr_time last)).
+    { unfold int64, min64, max64. change (2 ^ 59) with 576460752303423488 in HT. lia. }
+    rewrite (local_time_tt_val _ _ _ I64 O5) in E16.
+    destruct (cstr_from l4 (tt_abbr a5)) as [ab|]; [|discriminate E16].
+    cbn [bind] in E16. inversion E16; subst a6. clear E16. cbn [al_cs] in H.
+    assert (YB := cos_year_small (tr_time last + tt_off a5) ltac:(unfold off_ok in O5; lia)).
+    destruct (ext_tail_ok (dst_start p) (dst_end p) so dof z0 z2 (tr_time last)
+                (fy (civil_of_seconds (tr_time last + tt_off a5))) P1 P2 ltac:(lia) ltac:(lia) YB)
+      as (st & K & Ey & Fg).
+    specialize (K _ (fun st => OK (Some (trans ++ es_acc st, l3, l4, true, es_year st)))).
+    assert (X : OK (Some (trans2, types2, abbrs2, ext, ly)) =
+                OK (Some (trans ++ es_acc st, l3, l4, true, es_year st)))
+      by (rewrite <- H; exact K).
+    inversion X; subst. clear X H K.
+    exists (es_acc st). split; [reflexivity|]. split; [|split; [lia|split; auto]].
+    eapply Forall_impl; [|exact Fg].
+    intros tr [[T1 T2] T3]. split; [exists last; split; [exact EL|exact T1]|].
+    split; [exact T2|]. destruct T3 as [-> | ->]; lia.
+Qed.
 
-Lemma load_accept_shape bs z : load_bytes bs = OK (Some z) ->
-  exists abbrs types dtt trans3,
-    civil_pass abbrs types dtt None trans3 [] = OK (Some (z_trans z)).
+
+(* ------------------------------------------------------------------ *)
+(* Acceptance                                                           *)
+
+Lemma last_opt_In {A} (l : list A) x : last_opt l = Some x -> In x l.
 Proof.
-  intros H. unfold load_bytes in H.
+  unfold last_opt. destruct (rev l) as [|y r] eqn:E; [discriminate|].
+  intros H; inversion H; subst. apply in_rev. rewrite E. left. reflexivity.
+Qed.
+
+Lemma last_opt_app {A} (l : list A) x : last_opt (l ++ [x]) = Some x.
+Proof. unfold last_opt. rewrite rev_app_distr. reflexivity. Qed.
+
+Lemma last_opt_nonempty {A} (l : list A) : l <> [] -> exists x, last_opt l = Some x.
+Proof.
+  intros H. unfold last_opt. destruct (rev l) as [|y r] eqn:E; [|eauto].
+  exfalso. apply H. rewrite <- (rev_involutive l), E. reflexivity.
+Qed.
+
+Lemma combine_times (P : Z -> Prop) : forall times idxs, Forall P times ->
+  Forall (fun tr => P (tr_time tr)) (map (fun '(t, i) => mkTr t i epoch epoch) (combine times idxs)).
+Proof.
+  induction times as [|t ts IH]; intros idxs F; [constructor|].
+  destruct idxs as [|i is]; [constructor|].
+  inversion F; subst. cbn [combine map]. constructor; [cbn [tr_time]; assumption|].
+  apply IH. assumption.
+Qed.
+
+Definition t59 (t : Z) : Prop := - 2 ^ 59 <= t <= 2 ^ 59.
+
+Lemma time_in_range_t59 t : time_in_range t = true -> t59 t.
+Proof.
+  unfold time_in_range, t59, big_bang, src_big_bang_shift.
+  change (2 ^ 59) with 576460752303423488. lia.
+Qed.
+
+Lemma accept_sorted_lemma : forall bs z, load_bytes bs = OK (Some z) -> table_sorted z = true.
+Proof.
+  intros bs z H. unfold load_bytes in H.
   repeat peel_step H.
-  Show.
-Abort.
+  inversion H; subst z; clear H. unfold table_sorted. cbn [z_trans].
+  match goal with E : civil_pass _ _ _ None _ [] = OK _ |- _ =>
+    destruct (civil_pass_sorted _ _ _ _ _ E) as (S1 & S2 & _) end.
+  rewrite S1, S2. reflexivity.
+Qed.
+
+Lemma accept_bounds_lemma : forall bs z, load_bytes bs = OK (Some z) ->
+  z_trans z <> [] /\ Forall (fun tr => - 2 ^ 59 <= tr_time tr <= 2 ^ 60) (z_trans z).
+Proof.
+  intros bs z H. unfold load_bytes in H.
+  repeat peel_step H.
+  inversion H; subst z; clear H. cbn [z_trans].
+  match goal with E : extend_transitions ?t1 ?ty0 _ _ = OK _ |- _ =>
+    set (trans1 := t1) in *; set (types0 := ty0) in *; rename E into EX end.
+  match goal with E : civil_pass _ _ _ None _ [] = OK _ |- _ => rename E into ECP end.
+  match goal with E : negb (strictly_increasing ?ts) || negb (forallb time_in_range ?ts) = false |- _ =>
+    set (times := ts) in *; rename E into ETS end.
+  match goal with E : negb (forallb _ types0) = false |- _ => rename E into ETY end.
+  match goal with E : match last_opt _ with Some _ => _ | None => _ end = OK _ |- _ =>
+    rename E into ELAST end.
+  assert (FT : Forall t59 times).
+  { apply orb_false_iff in ETS. destruct ETS as [_ ETS]. apply negb_false_iff in ETS.
+    rewrite forallb_forall in ETS. apply Forall_forall. intros t Ht.
+    apply time_in_range_t59. apply ETS. exact Ht. }
+  assert (Fo : Forall off_ok types0).
+  { apply negb_false_iff in ETY. rewrite forallb_forall in ETY. apply Forall_forall.
+    intros ty Hty. specialize (ETY ty Hty). unfold off_ok. unfold src_kSecsPerDay in ETY. lia. }
+  assert (F1 : trans1 <> [] /\ Forall (fun tr => t59 (tr_time tr)) trans1).
+  { unfold trans1.
+    match goal with |- context [combine times ?ix] =>
+      pose proof (combine_times t59 times ix FT) as F0;
+      set (trans0 := map _ (combine times ix)) in * end.
+    assert (B : t59 big_bang).
+    { unfold t59, big_bang, src_big_bang_shift. change (2 ^ 59) with 576460752303423488. lia. }
+    destruct trans0 as [|tr0 r0].
+    - split; [discriminate|]. constructor; [exact B|constructor].
+    - destruct (0 <=? tr_time tr0).
+      + split; [discriminate|]. constructor; [exact B|exact F0].
+      + split; [discriminate|]. exact F0. }
+  clearbody trans1 types0 times.
+  destruct F1 as [N1 F1].
+  destruct (extend_inv _ _ _ _ _ _ _ _ _ EX Fo) as (gen & EG & FG & _).
+  { intros last HL. apply last_opt_In in HL. rewrite Forall_forall in F1. exact (F1 _ HL). }
+  destruct (civil_pass_sorted _ _ _ _ _ ECP) as (_ & _ & EM).
+  assert (F6 : Forall (fun tr => - 2 ^ 59 <= tr_time tr <= 2 ^ 60) l6).
+  { subst l6. apply Forall_app. split.
+    - eapply Forall_impl; [|exact F1]. unfold t59. intros tr HH.
+      change (2 ^ 60) with 1152921504606846976. change (2 ^ 59) with 576460752303423488 in *. lia.
+    - eapply Forall_impl; [|exact FG]. intros tr [(last & HL & T1) [T2 _]].
+      apply last_opt_In in HL. rewrite Forall_forall in F1. specialize (F1 _ HL).
+      unfold t59 in F1. lia. }
+  match type of EM with _ = map tr_time ?t3 => set (trans3 := t3) in * end.
+  assert (F3 : trans3 <> [] /\ Forall (fun tr => - 2 ^ 59 <= tr_time tr <= 2 ^ 60) trans3).
+  { unfold trans3. destruct (tr_time a1 <? 0).
+    - split; [subst l6; destruct trans1; [congruence|discriminate]|].
+      apply Forall_app. split; [exact F6|]. constructor; [|constructor].
+      cbn [tr_time]. unfold src_second_half_sentinel.
+      change (2 ^ 60) with 1152921504606846976. change (2 ^ 59) with 576460752303423488. lia.
+    - split; [subst l6; destruct trans1; [congruence|discriminate]|exact F6]. }
+  clearbody trans3. destruct F3 as [N3 F3].
+  split.
+  - intros ->. cbn [map] in EM. destruct trans3; [congruence|discriminate].
+  - apply (Forall_map tr_time (fun t => - 2 ^ 59 <= t <= 2 ^ 60)).
+    rewrite EM. apply Forall_map. exact F3.
+Qed.
+
+Print Assumptions accept_sorted_lemma.
+Print Assumptions accept_bounds_lemma.
